@@ -9,8 +9,10 @@
 
    Level(n) selects the operations offered at position n of the circuit:
      "quick"    all gates x all qubit assignments x angle values QuickTs x both forms,
-                every angle expression on one slot of each angle path, all measurements
-     "full"     the same with angle values -8..8 and both forms everywhere
+                every angle expression on rz, crz (RotationCompiler) and qsystem rz (float(angle)),
+                all measurements
+     "full"     the same with angle values -8..8, both forms everywhere, and the angle expressions
+                also on zz_phase and both slots of phased_x
      "core"     all gates/assignments, angle values {1, 2}, procedural form, measurements
      "none"     nothing *)
 EXTENDS QuantumDefs, Json
@@ -22,8 +24,8 @@ vars == <<prep, slice, ops, st>>
 QuickTs == {-5, -2, -1, 1, 2, 3, 4, 7}
 Both == {"p", "f"}
 OpSet(name) ==
-    CASE name = "quick" -> GateOps(GateNames, QuickTs, Both) \cup ExprOps({"p"}) \cup MeasOps(Both)
-      [] name = "full"  -> GateOps(GateNames, -8..8, Both) \cup ExprOps(Both) \cup MeasOps(Both)
+    CASE name = "quick" -> GateOps(GateNames, QuickTs, Both) \cup ExprOps({"p"}, FALSE) \cup MeasOps(Both)
+      [] name = "full"  -> GateOps(GateNames, -8..8, Both) \cup ExprOps(Both, TRUE) \cup MeasOps(Both)
       [] name = "core"  -> GateOps(GateNames, {1, 2}, {"p"}) \cup MeasOps({"p"})
       [] name = "none"  -> {}
 Level(n) == IF n = 1 THEN OpSet(Level1) ELSE OpSet(Level2)
@@ -56,6 +58,6 @@ Next == \/ Prepare
         \/ Len(ops) < Depth /\ \E op \in Level(Len(ops) + 1) : Step(op)
 Spec == Init /\ [][Next]_vars
 
-\* every enumerated circuit reports itself with its expected final state
-Emit == Len(ops) >= 1 => PrintT(ToJson([prep |-> prep, ops |-> ops, st |-> OutState(st)]))
+\* every enumerated circuit (the bare preparation included) reports itself with its expected final state
+Emit == st # NotStarted => PrintT(ToJson([prep |-> prep, ops |-> ops, st |-> OutState(st)]))
 =============================================================================
